@@ -182,6 +182,25 @@ def expectedProcessEPIC : List String :=
 /-- T3: `processEPIC` still has that shape. -/
 theorem gen_processEPIC_shape : Scion.Gen.Epic.processEPICStmts = expectedProcessEPIC := by decide
 
+/-- T3: `VerifyTimestamp` computes the offset as `(time.Duration(epicTS) + 1) * TimestampResolution`, i.e. the
+    `+ 1` happens AFTER widening the 32-bit packet timestamp to 64 bits, as in the model (`(pktTs + 1)` in
+    `Nat`, no wrap at `0xFFFFFFFF`), and compares against skew resp. lifetime + skew -/
+theorem gen_verifyTimestamp_shape :
+    Scion.Gen.Epic.verifyTimestampStmts =
+      ["diff := (time.Duration(epicTS) + 1) * TimestampResolution", "tsSender := timestamp.Add(diff)",
+       "if tsSender.After(now.Add(MaxClockSkew))",
+       "if now.After(tsSender.Add(MaxPacketLifetime).Add(MaxClockSkew))", "return nil"] := by decide
+
+/-- the largest packet timestamp lies more than 25 hours after the segment timestamp: with a segment
+    created at `now` it is never fresh (no 32-bit wrap-around of `pktTs + 1`) -/
+theorem max_pktTs_not_fresh (ts0 : Nat) : fresh ts0 4294967295 (ts0 * 1000000000) = false := by
+  have h : ¬ Fresh ts0 4294967295 (ts0 * 1000000000) := by
+    rw [fresh_window, tsSender_eq]
+    omega
+  cases hf : fresh ts0 4294967295 (ts0 * 1000000000)
+  · rfl
+  · exact absurd ((fresh_iff _ _ _).mp hf) h
+
 /-! Non-vacuity: a one-segment path of two hops at its first hop (the penultimate one), packet from the
     internal network, identity "MAC" and a PRF that returns its key: the PHVF must be the first four bytes
     of the hop's MAC input, i.e. `00 00` and the SegID `00 05`. -/
